@@ -4,6 +4,7 @@ package main
 
 import (
 	"bufio"
+	"bytes"
 	"context"
 	"encoding/hex"
 	"errors"
@@ -53,6 +54,48 @@ func parseFail(tok string) int {
 	n := -1
 	fmt.Sscanf(tok, "%d", &n)
 	return n
+}
+
+// mkReader hands the document to the library through readers of different dynamic types (the library
+// takes an io.Reader; what it gets must not matter): chosen by the content, so a case always gets the same one.
+type plainReader struct{ r io.Reader }
+
+func (p plainReader) Read(b []byte) (int, error) { return p.r.Read(b) }
+
+func mkReader(doc string) io.Reader {
+	h := 0
+	for i := 0; i < len(doc); i++ {
+		h = h*31 + int(doc[i])
+	}
+	if h < 0 {
+		h = -h
+	}
+	switch h % 6 {
+	case 0:
+		return strings.NewReader(doc)
+	case 1:
+		return bytes.NewBufferString(doc)
+	case 2:
+		return bytes.NewReader([]byte(doc))
+	case 3:
+		return bufio.NewReaderSize(strings.NewReader(doc), 16)
+	case 4:
+		return plainReader{strings.NewReader(doc)} // only Read, nothing else
+	default:
+		if len(doc) > 2000 {
+			return strings.NewReader(doc)
+		}
+		return iotest1{strings.NewReader(doc)} // one byte per Read
+	}
+}
+
+type iotest1 struct{ r io.Reader }
+
+func (o iotest1) Read(b []byte) (int, error) {
+	if len(b) == 0 {
+		return 0, nil
+	}
+	return o.r.Read(b[:1])
 }
 
 func unhex(h string) string {
